@@ -604,6 +604,12 @@ def step (line : String) : String :=
       (match decLogic m, decFm f with
        | some m, some f => toString (Fm.inLogic m f)
        | _, _ => "bad-op")
+  | ["ISSTATE", m, f] =>
+      -- `is_a_state_formula()` of an object of the CTL* / CTL module
+      (match decLogic m, decFm f with
+       | some .CTLS, some f => toString (Fm.isCTLSState f)
+       | some .CTL, some f => toString (Fm.isCTLState f)
+       | _, _ => "bad-op")
   | ["EQ", m, f, g] =>
       (match decLogic m, decFm f, decFm g with
        | some m, some f, some g => s!"{Fm.pyEq m f g} {f.beq g}"
